@@ -501,26 +501,26 @@ Proof.
   - intros H. destruct (IH H) as [i [Hi Hs]]. exists i. split; [now right|exact Hs].
 Qed.
 
-Lemma upl_incl fs lv lc k s : lookup k (upl fs lv lc) = Some s -> incl s fs.
+Lemma upl_incl cum fs lv lc k s : lookup k (upl cum fs lv lc) = Some s -> incl s fs.
 Proof.
   unfold upl. intros H. apply lookup_map_In in H. destruct H as [i [_ ->]]. cbn [snd].
-  intros x Hx. destruct i as [|i']; apply dedup_incl in Hx; eapply pyslice_incl; exact Hx.
+  intros x Hx. destruct cum; [|destruct i as [|i']]; apply dedup_incl in Hx; eapply pyslice_incl; exact Hx.
 Qed.
 
-Lemma union_lookup_incl fs lv lc keys vals : union_lookup keys (upl fs lv lc) = Some vals -> incl vals fs.
+Lemma union_lookup_incl cum fs lv lc keys vals : union_lookup keys (upl cum fs lv lc) = Some vals -> incl vals fs.
 Proof.
   revert vals. induction keys as [|k r IH]; intros vals H; cbn [union_lookup] in H.
   - inversion H. intros x [].
-  - destruct (lookup k (upl fs lv lc)) as [s|] eqn:E; [|discriminate].
-    destruct (union_lookup r (upl fs lv lc)) as [t|] eqn:E2; [|discriminate]. inversion H; subst.
+  - destruct (lookup k (upl cum fs lv lc)) as [s|] eqn:E; [|discriminate].
+    destruct (union_lookup r (upl cum fs lv lc)) as [t|] eqn:E2; [|discriminate]. inversion H; subst.
     intros x Hx. apply in_app_or in Hx. destruct Hx as [Hx|Hx]; [eapply upl_incl; eassumption|apply (IH t eq_refl); exact Hx].
 Qed.
 
-Lemma flip1_spec fs lv lc ysort inds ix col st col' st' :
-  flip1 lv (upl fs lv lc) ysort inds ix col st = Ok (col', st') ->
+Lemma flip1_spec cum fs lv lc ysort inds ix col st col' st' :
+  flip1 lv (upl cum fs lv lc) ysort inds ix col st = Ok (col', st') ->
   exists pos v, col' = upd pos v col /\ In v fs.
 Proof.
-  unfold flip1. set (d := upl fs lv lc).
+  unfold flip1. set (d := upl cum fs lv lc).
   destruct (union_lookup (possible lv (nthZ ysort ix)) d) as [vals|] eqn:Ev; [|discriminate].
   destruct (lookup (nthZ ysort ix) d) as [own|] eqn:Eo; [|discriminate].
   destruct (filter (fun v => negb (memZ v own)) vals) as [|w vals'] eqn:Ef.
@@ -539,16 +539,16 @@ Proof.
     eapply union_lookup_incl; eassumption.
 Qed.
 
-Lemma flips_spec fs lv lc ysort inds c0 ixs : forall col st col' st',
-  flips lv (upl fs lv lc) ysort inds ixs col st = Ok (col', st') ->
+Lemma flips_spec cum fs lv lc ysort inds c0 ixs : forall col st col' st',
+  flips lv (upl cum fs lv lc) ysort inds ixs col st = Ok (col', st') ->
   length col' = length col /\
   (forall x, In x col' -> In x col \/ In x fs) /\
   diff_count c0 col' <= diff_count c0 col + lenZ ixs.
 Proof.
   induction ixs as [|ix r IH]; intros col st col' st' H; cbn [flips] in H.
   - inversion H; subst. split; [reflexivity|]. split; [auto|]. unfold lenZ. cbn [length]. lia.
-  - destruct (flip1 lv (upl fs lv lc) ysort inds ix col st) as [[col1 st1]| |] eqn:E1; try discriminate.
-    destruct (flip1_spec _ _ _ _ _ _ _ _ _ _ E1) as [pos [v [-> Hv]]].
+  - destruct (flip1 lv (upl cum fs lv lc) ysort inds ix col st) as [[col1 st1]| |] eqn:E1; try discriminate.
+    destruct (flip1_spec _ _ _ _ _ _ _ _ _ _ _ E1) as [pos [v [-> Hv]]].
     destruct (IH _ _ _ _ H) as [HL [HI HD]]. split; [rewrite HL; apply upd_length|]. split.
     + intros x Hx. destruct (HI x Hx) as [Hx'|Hx']; [|auto]. apply upd_In in Hx'. destruct Hx' as [->|Hx']; auto.
     + pose proof (diff_upd c0 pos v col). unfold lenZ in *. cbn [length]. lia.
@@ -557,19 +557,19 @@ Qed.
 Definition col_cat_ok (k : Z) (c o : list Z) : Prop :=
   length o = length c /\ diff_count c o <= k /\ forall v, In v o -> In v c.
 
-Lemma noise_col_cat_spec lv lc ysort inds n k col st col' st' :
-  forallb (in_range n) inds = true -> lenZ col = n -> 0 <= k ->
-  noise_col_cat lv lc ysort inds n k col st = Ok (col', st') -> col_cat_ok k col col'.
+Lemma noise_col_cat_spec cum lv lc ysort inds n k col st col' st' :
+  forallb (in_range n) inds = true -> lenZ col = n ->
+  noise_col_cat cum lv lc ysort inds n k col st = Ok (col', st') -> col_cat_ok k col col'.
 Proof.
-  intros Hin Hlen Hk. unfold noise_col_cat.
+  intros Hin Hlen. unfold noise_col_cat.
   destruct st as [|[m ixs|v|hi k'|l|m l] st1]; try discriminate.
   destruct (idx_answer_ok n k m ixs) eqn:Ea; [|discriminate]. intros H.
-  destruct (flips_spec _ _ _ _ _ col _ _ _ _ _ H) as [HL [HI HD]].
+  destruct (flips_spec _ _ _ _ _ _ col _ _ _ _ _ H) as [HL [HI HD]].
   assert (Hfs : incl (map (nthZ col) inds) col).
   { intros x Hx. apply in_map_iff in Hx. destruct Hx as [i [<- Hi]]. rewrite forallb_forall in Hin. specialize (Hin i Hi).
     unfold in_range in Hin. unfold nthZ. apply nth_In. unfold lenZ in Hlen. lia. }
   unfold idx_answer_ok in Ea. rewrite diff_count_refl in HD.
-  split; [exact HL|]. split; [lia|]. intros v Hv. destruct (HI v Hv) as [H1|H1]; [exact H1|apply Hfs; exact H1].
+  split; [exact HL|]. split; [rewrite !andb_true_iff in Ea; destruct Ea as [[[_ Ek] _] _]; apply Z.eqb_eq in Ek; lia|]. intros v Hv. destruct (HI v Hv) as [H1|H1]; [exact H1|apply Hfs; exact H1].
 Qed.
 
 Lemma cols_loop_Forall2 (f : list Z -> list ans -> res (list Z * list ans)) (Q P : list Z -> Prop) (R : list Z -> list Z -> Prop) :
@@ -586,30 +586,47 @@ Qed.
 Lemma finish_Ok {A} (r : res (A * list ans)) a : finish r = Ok a -> r = Ok (a, []).
 Proof. destruct r as [[a' [|x st]]| |]; cbn [finish]; intros H; inversion H; reflexivity. Qed.
 
-Lemma nflip_nonneg n p : 0 <= n -> p_ok p = true -> 0 <= nflip n p <= n.
+Lemma nflip_nonneg n p : 0 <= n -> p_ok n p = true -> 0 <= nflip n p <= n.
 Proof.
   intros Hn Hp. unfold p_ok in Hp. apply andb_true_iff in Hp. destruct Hp as [H0 H1].
-  apply Qle_bool_iff in H0. apply Qle_bool_iff in H1. unfold nflip.
+  apply Qle_bool_iff in H0. unfold nflip in *.
   assert (Hn' : (0 <= inject_Z n)%Q) by (rewrite <- (Zle_Qle 0); exact Hn).
-  split.
-  - change 0 with (Qfloor (inject_Z 0)). apply Qfloor_resp_le. change (inject_Z 0) with 0%Q. nra.
-  - rewrite <- (Qfloor_Z n) at 2. apply Qfloor_resp_le. nra.
+  split; [|lia].
+  change 0 with (Qfloor (inject_Z 0)). apply Qfloor_resp_le. change (inject_Z 0) with 0%Q. nra.
+Qed.
+
+(* what the oracle check on the code's int(n*p) guarantees *)
+Definition kflip_spec (n : Z) (p : Q) (k : Z) : Prop :=
+  nflip n p - 1 <= k <= nflip n p + 1 /\
+  (let g := (inject_Z n * p - inject_Z (nflip n p))%Q in
+   small_dyadic n p = true \/ ((eps9 <= g)%Q /\ (g <= 1 - eps9)%Q) -> k = nflip n p).
+Lemma kflip_ok_spec n p k : kflip_ok n p k = true -> kflip_spec n p k.
+Proof.
+  unfold kflip_ok, kflip_spec, nflip. set (x := (inject_Z n * p)%Q). set (f := Qfloor x).
+  destruct (small_dyadic n p) eqn:Es.
+  - intros H. apply Z.eqb_eq in H. split; [lia|]. intros _. exact H.
+  - destruct (qlt_bool (x - inject_Z f) eps9) eqn:E1.
+    + intros H. apply qlt_bool_iff in E1. split; [lia|]. intros [Hd|[Hg _]]; [discriminate|]. exfalso. lra.
+    + destruct (qlt_bool (1 - eps9) (x - inject_Z f)) eqn:E2.
+      * intros H. apply qlt_bool_iff in E2. split; [lia|]. intros [Hd|[_ Hg]]; [discriminate|]. exfalso. lra.
+      * intros H. apply Z.eqb_eq in H. split; [lia|]. intros _. exact H.
 Qed.
 
 (* C20_noise_cat *)
-Lemma noise_cat_spec cols y p inds st out :
+Lemma noise_cat_spec cum cols y p k inds st out :
   Forall (fun c => lenZ c = lenZ y) cols ->
-  noise_cat cols y p inds st = Ok out ->
-  Forall2 (col_cat_ok (nflip (lenZ y) p)) cols out.
+  noise_cat cum cols y p k inds st = Ok out ->
+  Forall2 (col_cat_ok k) cols out /\ kflip_spec (lenZ y) p k.
 Proof.
   intros Hc. unfold noise_cat.
   destruct (is_perm (lenZ y) inds && sortedb (map (nthZ y) inds)) eqn:E1; cbn [negb]; [|discriminate].
-  destruct (p_ok p) eqn:E2; cbn [negb]; [|discriminate]. intros H. apply finish_Ok in H.
+  destruct (p_ok (lenZ y) p) eqn:E2; cbn [negb]; [|discriminate].
+  destruct (kflip_ok (lenZ y) p k) eqn:E3; cbn [negb]; [|discriminate]. intros H. apply finish_Ok in H.
+  split; [|apply kflip_ok_spec; exact E3].
   apply andb_true_iff in E1. destruct E1 as [E1 _]. unfold is_perm in E1.
   apply andb_true_iff in E1. destruct E1 as [E1 _]. apply andb_true_iff in E1. destruct E1 as [_ Hin].
-  pose proof (nflip_nonneg (lenZ y) p (lenZ_nonneg y) E2) as Hk.
   eapply (cols_loop_Forall2 _ (fun c => lenZ c = lenZ y) (fun _ => True)); [|exact Hc|exact H].
-  intros c st0 c' st0' Hl Hf. eapply noise_col_cat_spec; [exact Hin|exact Hl|lia|exact Hf].
+  intros c st0 c' st0' Hl Hf. eapply noise_col_cat_spec; [exact Hin|exact Hl|exact Hf].
 Qed.
 
 Lemma forallb_combine_Forall2 {A B} (g : A * B -> bool) a b :
@@ -619,9 +636,11 @@ Proof.
   cbn [combine forallb] in H. apply andb_true_iff in H. destruct H as [H1 H2]. constructor; [exact H1|]. apply IH; [lia|exact H2].
 Qed.
 
-Lemma noise_cat_check_sound cols n p out : noise_cat_check cols n p out = true -> Forall2 (col_cat_ok (nflip n p)) cols out.
+Lemma noise_cat_check_sound cols n p k out : noise_cat_check cols n p k out = true ->
+  Forall2 (col_cat_ok k) cols out /\ kflip_spec n p k.
 Proof.
-  unfold noise_cat_check, same_shape. rewrite !andb_true_iff. intros [[HL HS] HC].
+  unfold noise_cat_check, same_shape. rewrite !andb_true_iff. intros [[[HL HS] HK] HC].
+  split; [|apply kflip_ok_spec; exact HK].
   apply Nat.eqb_eq in HL. apply forallb_combine_Forall2 in HC; [|exact HL]. apply forallb_combine_Forall2 in HS; [|exact HL].
   clear HL. induction HC as [|c o r s H1 _ IH]; [constructor|]. inversion HS; subst. constructor; [|apply IH; assumption].
   cbn [fst snd] in *. apply andb_true_iff in H1. destruct H1 as [Hd Hm].
@@ -706,20 +725,23 @@ Proof.
 Qed.
 
 (* C20_noise_missing *)
-Lemma noise_missing_spec cols n p marker st out :
+Lemma noise_missing_spec cols n p k marker st out :
   Forall (fun c => lenZ c = n) cols ->
-  noise_missing cols n p marker st = Ok out ->
-  Forall2 (col_missing_ok n (nflip n p) marker) cols out.
+  noise_missing cols n p k marker st = Ok out ->
+  Forall2 (col_missing_ok n k marker) cols out /\ kflip_spec n p k.
 Proof.
-  intros Hc. unfold noise_missing. destruct (p_ok p); cbn [negb]; [|discriminate]. intros H. apply finish_Ok in H.
+  intros Hc. unfold noise_missing. destruct (p_ok n p); cbn [negb]; [|discriminate].
+  destruct (kflip_ok n p k) eqn:E3; cbn [negb]; [|discriminate]. intros H. apply finish_Ok in H.
+  split; [|apply kflip_ok_spec; exact E3].
   eapply (cols_loop_Forall2 _ (fun c => lenZ c = n) (fun _ => True)); [|exact Hc|exact H].
   intros c st0 c' st0' Hl Hf. eapply noise_col_missing_spec; eassumption.
 Qed.
 
-Lemma noise_missing_check_sound cols n p marker out :
-  noise_missing_check cols n p marker out = true -> Forall2 (col_missing_ok n (nflip n p) marker) cols out.
+Lemma noise_missing_check_sound cols n p k marker out :
+  noise_missing_check cols n p k marker out = true -> Forall2 (col_missing_ok n k marker) cols out /\ kflip_spec n p k.
 Proof.
-  unfold noise_missing_check, same_shape. rewrite !andb_true_iff. intros [[HL HS] HC].
+  unfold noise_missing_check, same_shape. rewrite !andb_true_iff. intros [[[HL HS] HK] HC].
+  split; [|apply kflip_ok_spec; exact HK].
   apply Nat.eqb_eq in HL. apply forallb_combine_Forall2 in HC; [|exact HL]. apply forallb_combine_Forall2 in HS; [|exact HL].
   clear HL. induction HC as [|c o r s H1 _ IH]; [constructor|]. inversion HS; subst. constructor; [|apply IH; assumption].
   cbn [fst snd] in *. apply andb_true_iff in H1. destruct H1 as [Hp Hm]. split.
@@ -1058,8 +1080,8 @@ Proof. exists [1; 2; 3], [inject_Z 2]. vm_compute. discriminate. Qed.
 
 (* categorical noise on labels that are not 0..k-1: the per-label dictionary is indexed by position -> KeyError *)
 Lemma noise_cat_needs_standard_labels :
-  noise_cat [[1; 4; 7; 0; 3; 9]; [20; 50; 80; 10; 30; 90]] [1; 2; 1; 2; 2; 1] (1 # 2) [0; 2; 5; 1; 3; 4] [AIdx 6 [5; 2; 4]] = Raises.
-Proof. vm_compute. reflexivity. Qed.
+  forall cum, noise_cat cum [[1; 4; 7; 0; 3; 9]; [20; 50; 80; 10; 30; 90]] [1; 2; 1; 2; 2; 1] (1 # 2) 3 [0; 2; 5; 1; 3; 4] [AIdx 6 [5; 2; 4]] = Raises.
+Proof. intros [|]; vm_compute; reflexivity. Qed.
 
 (* ------------------------------------------------------------------------------------------ *)
 (* non-vacuity: each theorem's hypotheses are satisfied by concrete inputs (recorded from real runs where an oracle is involved) *)
@@ -1083,12 +1105,12 @@ Example ex_labels_ndarray :
   gen_labels d 3 (PScalar (1 # 2)) = Some [1; 0; 2; 0; 1; 2; 0; 2; 1; 2; 0].
 Proof. vm_compute. split; reflexivity. Qed.
 Example ex_noise_cat :
-  noise_cat [[1; 4; 7; 0; 3; 9]; [20; 50; 80; 10; 30; 90]; [3; 6; 10; 5; 3; 9]] [0; 1; 0; 1; 2; 2] (1 # 2) [0; 2; 1; 3; 4; 5]
+  noise_cat false [[1; 4; 7; 0; 3; 9]; [20; 50; 80; 10; 30; 90]; [3; 6; 10; 5; 3; 9]] [0; 1; 0; 1; 2; 2] (1 # 2) 3 [0; 2; 1; 3; 4; 5]
     [AIdx 6 [5; 2; 4]; AVal 7; AVal 1; AVal 7; AIdx 6 [2; 1; 4]; AVal 20; AVal 50; AVal 20; AIdx 6 [4; 2; 1]; AVal 3; AVal 3; AVal 6]
   = Ok [[1; 1; 7; 0; 7; 7]; [20; 20; 50; 10; 20; 90]; [3; 3; 6; 5; 3; 9]].
 Proof. vm_compute. reflexivity. Qed.
 Example ex_noise_missing :
-  noise_missing [[1; 4; 7; 0; 3; 9]; [20; 50; 80; 10; 30; 90]] 6 (1 # 2) (-1) [AIdx 6 [5; 2; 4]; AIdx 6 [5; 1; 4]]
+  noise_missing [[1; 4; 7; 0; 3; 9]; [20; 50; 80; 10; 30; 90]] 6 (1 # 2) 3 (-1) [AIdx 6 [5; 2; 4]; AIdx 6 [5; 1; 4]]
   = Ok [[1; 4; -1; 0; -1; -1]; [20; -1; 80; 10; -1; -1]].
 Proof. vm_compute. reflexivity. Qed.
 Example ex_downsample :
